@@ -661,6 +661,24 @@ func main() {
 		addStr("cleanerPreconditions", strings.Join(conds, " ; "))
 	}
 
+	// RemoveDiffDisk / ReplaceDisk: the chain is re-linked (removeDiskNode) before the files are unlinked
+	{
+		for _, n := range []string{"RemoveDiffDisk", "ReplaceDisk"} {
+			f := rep.fn("Replica", n)
+			var order []string
+			ast.Inspect(f, func(x ast.Node) bool {
+				if c, ok := x.(*ast.CallExpr); ok {
+					t := src(c.Fun)
+					if t == "r.removeDiskNode" || t == "r.rmDisk" || t == "r.hardlinkDisk" || t == "r.holeDrainer" {
+						order = append(order, src(c))
+					}
+				}
+				return true
+			})
+			addStr("order_"+n, strings.Join(order, " ; "))
+		}
+	}
+
 	// ---- emit ---------------------------------------------------------------------------
 	var b strings.Builder
 	b.WriteString("/- GENERATED by /verif/extract from /repo's working tree. Do not edit. -/\nnamespace Jiva.Gen\n\n")
